@@ -1,0 +1,87 @@
+//go:build verif
+
+// Contracts for package ciphersuite: record authentication (C05) and wire layout of the AEAD inputs (C10).
+package ciphersuite
+
+// RFC 5246 6.2.3.3 / RFC 6347 4.1.2.1: additional_data = epoch(2) || sequence_number(6) || type(1) ||
+// version(2) || length(2). Every header field that identifies the record is covered.
+//@ func generateAEADAdditionalData
+//@ requires args: h != nil
+//@ ensures length: len(result) == 13
+//@ ensures epoch: result[0] == byte(h.Epoch >> 8) && result[1] == byte(h.Epoch)
+//@ ensures sequence: result[2] == byte(h.SequenceNumber >> 40) && result[3] == byte(h.SequenceNumber >> 32) && result[4] == byte(h.SequenceNumber >> 24)
+//@    && result[5] == byte(h.SequenceNumber >> 16) && result[6] == byte(h.SequenceNumber >> 8) && result[7] == byte(h.SequenceNumber)
+//@ ensures content-type: result[8] == byte(h.ContentType)
+//@ ensures version: result[9] == h.Version.Major && result[10] == h.Version.Minor
+//@ ensures payload-length: result[11] == byte(uint16(payloadLen) >> 8) && result[12] == byte(uint16(payloadLen))
+//@ ensures fresh-buffer: fresh(result)
+//@ end
+
+// RFC 9146 5.3: seq_num_placeholder(8 x 0xff) || tls12_cid(1) || cid_length(1) || tls12_cid(1) || version(2)
+// || epoch(2) || sequence_number(6) || cid || length_of_DTLSInnerPlaintext(2).
+//@ func generateAEADAdditionalDataCID
+//@ requires args: h != nil && len(h.ConnectionID) <= 255
+//@ ensures length: len(result) == 23 + len(h.ConnectionID)
+//@ ensures placeholder: forall(0, 8, func(i int) bool { return result[i] == 0xff })
+//@ ensures types: result[8] == 25 && result[10] == 25
+//@ ensures cid-length: result[9] == byte(len(h.ConnectionID))
+//@ ensures version: result[11] == h.Version.Major && result[12] == h.Version.Minor
+//@ ensures epoch: result[13] == byte(h.Epoch >> 8) && result[14] == byte(h.Epoch)
+//@ ensures sequence: result[15] == byte(h.SequenceNumber >> 40) && result[16] == byte(h.SequenceNumber >> 32) && result[17] == byte(h.SequenceNumber >> 24)
+//@    && result[18] == byte(h.SequenceNumber >> 16) && result[19] == byte(h.SequenceNumber >> 8) && result[20] == byte(h.SequenceNumber)
+//@ ensures cid: forall(0, len(h.ConnectionID), func(i int) bool { return result[21+i] == h.ConnectionID[i] })
+//@ ensures payload-length: result[21+len(h.ConnectionID)] == byte(uint16(payloadLen) >> 8) && result[22+len(h.ConnectionID)] == byte(uint16(payloadLen))
+//@ end
+
+// RFC 5246 6.2.3.2: padding check. toRemove = padding_length + 1; good is 255 exactly when the last
+// toRemove bytes all equal padding_length and fit in the payload, 0 otherwise.
+//@ func examinePadding
+//@ ensures empty: len(payload) == 0 ==> toRemove == 0 && good == 0
+//@ ensures remove-range: len(payload) > 0 ==> toRemove == int(payload[len(payload)-1]) + 1 && 1 <= toRemove && toRemove <= 256
+//@ ensures good-is-flag: good == 0 || good == 255
+//@ ensures good-implies-fits: good == 255 ==> toRemove <= len(payload)
+//@ ensures good-implies-padding: good == 255 ==> forall(0, toRemove, func(i int) bool { return payload[len(payload)-1-i] == payload[len(payload)-1] })
+//@ loop #1: input-kept: paddingLen == payload[len(payload)-1] && len(payload) > 0 && toCheck == min(256, len(payload)) && 0 <= i && i <= toCheck
+//@ loop #1: fits: good == 255 ==> int(paddingLen) <= len(payload)-1
+//@ loop #1: checked: good == 255 ==> forall(0, i, func(j int) bool { return j <= int(paddingLen) ==> payload[len(payload)-1-j] == paddingLen })
+//@ end
+
+// AEAD record opening (RFC 5288 / 6655 / 9146): a record is returned only if the AEAD accepted it, with
+// the nonce write_IV[:4] || explicit_nonce taken from the received bytes and the additional data
+// computed from the header parsed from the same received bytes.
+//@ assume-pure aead.nonceBufferPool
+
+//@ func aead.decrypt
+//@ watch AEAD.Open generateAEADAdditionalData generateAEADAdditionalDataCID
+//@ requires args: a.remoteAEAD != nil && len(a.remoteWriteIV) >= 4 && len(header.ConnectionID) <= 255
+//@ ensures short-rejected: len(in) < 13 ==> result1 != nil
+//@ ensures opened-or-ccs: result1 == nil ==> old(in[0]) == 20 || (called("AEAD.Open") && retErr("AEAD.Open", 1) == nil)
+//@ ensures ccs-untouched: result1 == nil && old(in[0]) == 20 ==> !called("AEAD.Open")
+//@ ensures open-once: ncalls("AEAD.Open") <= 1
+//@ ensures aad-from-received-header: called("AEAD.Open") ==> (called("generateAEADAdditionalData") || called("generateAEADAdditionalDataCID"))
+//@ ensures aad-is-what-was-built: called("AEAD.Open") && old(in[0]) != 25 ==> sameSlice(argBytes("AEAD.Open", 4), retBytes("generateAEADAdditionalData", 0))
+//@ ensures aad-cid-is-what-was-built: called("AEAD.Open") && old(in[0]) == 25 ==> sameSlice(argBytes("AEAD.Open", 4), retBytes("generateAEADAdditionalDataCID", 0))
+//@ end
+
+// CBC records (RFC 5246 6.2.3.2, MAC-then-encrypt): a record is returned only if the padding check
+// succeeded and the MAC computed over the received header fields and the plaintext equals the MAC
+// carried in the record; all slice bounds hold for every received length and padding value.
+//@ func CBC.Decrypt
+//@ watch examinePadding hmac.Equal CBC.hmac CBC.hmacCID
+//@ requires args: c.readCBC != nil && c.h != nil && len(header.ConnectionID) <= 255
+//@ ensures short-rejected: len(in) < 13 ==> result1 != nil
+//@ ensures authenticated: result1 == nil && old(in[0]) != 20 ==> called("hmac.Equal") && retBool("hmac.Equal", 0)
+//@ ensures padding-called: result1 == nil && old(in[0]) != 20 ==> called("examinePadding")
+//@ ensures padding-checked: result1 == nil && old(in[0]) != 20 ==> retAs("examinePadding", 1, byte(0)) == 255
+//@ ensures mac-computed: called("hmac.Equal") ==> called("CBC.hmac") || called("CBC.hmacCID")
+//@ ensures mac-compared-is-computed: called("hmac.Equal") && old(in[0]) != 25 ==> sameSlice(argBytes("hmac.Equal", 0), retBytes("CBC.hmac", 0))
+//@ ensures ccs-untouched: result1 == nil && old(in[0]) == 20 ==> !called("examinePadding") && sameSlice(result0, in)
+//@ end
+
+//@ func CBC.hmac
+//@ noinline
+//@ end
+
+//@ func CBC.hmacCID
+//@ noinline
+//@ end
